@@ -11,11 +11,11 @@
 #include <stdlib.h>
 #include <string.h>
 
-typedef struct { uint8_t f0, f1, f2; uint8_t initmask; uint8_t presence; uint8_t fxor; } c20_case_t;
+typedef struct { uint8_t f0, f1, f2; uint8_t initmask; uint8_t presence; uint8_t fxor; uint8_t hub; } c20_case_t;
 static long c20_count(void) { return 3L * 3 * 2 * 64 * 8 * 2; }
 static void c20_decode(long idx, c20_case_t *c) {
 	c->f0 = (uint8_t) (idx % 3); idx /= 3; c->f1 = (uint8_t) (idx % 3); idx /= 3; c->f2 = (uint8_t) (idx % 2); idx /= 2;
-	c->initmask = (uint8_t) (idx % 64); idx /= 64; c->presence = (uint8_t) (idx % 8); idx /= 8; c->fxor = (uint8_t) idx;
+	c->initmask = (uint8_t) (idx % 64); idx /= 64; c->presence = (uint8_t) (idx % 8); idx /= 8; c->fxor = (uint8_t) (idx % 2); c->hub = 0;
 }
 static void build(cm_model_t *m, const c20_case_t *c) {
 	cm_std(m);
@@ -28,6 +28,8 @@ static void build(cm_model_t *m, const c20_case_t *c) {
 	m->t[0].per[0].has_initial = (c->initmask & 16) != 0; m->t[0].per[1].has_initial = (c->initmask & 16) != 0;
 	m->t[1].per[0].has_initial = (c->initmask & 32) != 0; m->t[1].per[0].initial = 1;
 	for (int i = 1; i <= 3; i++) m->b[i].present = (c->presence >> (i - 1)) & 1;
+	/* tree variant: oc1 (hub & 1) / booster2 (hub & 2) sit beneath a hub that the configuration does not mention */
+	if (c->hub & 1) m->b[1].hub_local = 9; if (c->hub & 2) m->b[3].hub_local = 9;
 }
 static int msg_eq(const cm_msg_t *e, int li) {
 	return !memcmp(e->addr, SB.log[li].addr, 4) && e->type == SB.log[li].type && e->dlen == SB.log[li].dlen && !memcmp(e->data, SB.log[li].data, (size_t) e->dlen);
@@ -106,6 +108,23 @@ static void c20_child(const void *job, size_t n) {
 	res_printf("O %llx %llx\n", (unsigned long long) h.a, (unsigned long long) h.b);
 	res_finish();
 }
+/* c20.hub: the same start-up check with boards beneath an unconfigured hub (features x initial values x presence) */
+static void hub_child(const void *job, size_t n) {
+	vs_dev_t devs[VS_MAXDEV]; int nd; size_t pl; const uint8_t *p = job_parse(job, n, devs, &nd, &pl);
+	c20_case_t c = { 1, (uint8_t) (1 + p[0] % 2), 1, (uint8_t) (p[0] & 2 ? 0x3F : 0x15), (uint8_t) (p[1] & 7), 0, (uint8_t) (1 + p[0] / 4 % 3) };
+	static cm_model_t m; build(&m, &c);
+	hx_child_begin(NULL, 0, 0, NULL, 0, 120ull * 1000000ull);
+	cm_install(&m);
+	int rc = hx_start_normal(0); hx_quiesce();
+	char what[100]; snprintf(what, sizeof what, "start-up, %s%s beneath an unconfigured hub", c.hub & 1 ? "oc1 " : "", c.hub & 2 ? "booster2" : "");
+	if (rc) res_violation("start-failed", "bidib_start_pointer returned %d", rc);
+	else { int reset_at = 0; for (int i = 0; i < SB.nlog; i++) if (SB.log[i].type == MSG_SYS_RESET) reset_at = i; check_segment(&m, reset_at, SB.nlog, what); }
+	hx_emit_ledger_violations("C20");
+	hx_hash_t h; hx_hash_init(&h); for (int i = 0; i < SB.nlog; i++) { hx_hash_add(&h, SB.log[i].addr, 4); hx_hash_add(&h, &SB.log[i].type, 1); hx_hash_add(&h, SB.log[i].data, (size_t) SB.log[i].dlen); }
+	res_printf("O %llx %llx\n", (unsigned long long) h.a, (unsigned long long) h.b);
+	res_finish();
+}
+static size_t hub_gen(long idx, uint8_t *payload, char *human, size_t hn) { payload[0] = (uint8_t) (idx % 12); payload[1] = (uint8_t) (idx / 12); snprintf(human, hn, "unconfigured-hub tree variant %d, feature/initial profile %d, presence mask %d", 1 + (int) (idx % 12) / 4, (int) (idx % 4), (int) (idx / 12)); return 2; }
 static int stride;
 static size_t c20_gen(long idx, uint8_t *payload, char *human, size_t hn) {
 	uint32_t start = (uint32_t) (idx * stride), count = 1; memcpy(payload, &start, 4); memcpy(payload + 4, &count, 4);
@@ -154,7 +173,7 @@ static size_t vanish_gen(long idx, uint8_t *payload, char *human, size_t hn) {
 	payload[0] = (uint8_t) (idx % 18); payload[1] = (uint8_t) (idx / 18);
 	static const char *bn[3] = {"oc1", "lc1", "booster2"}; snprintf(human, hn, "%s vanishes at GETNEXT #%d during %s", bn[payload[0] % 3], payload[0] / 3, payload[1] ? "a later system reset" : "start-up"); return 2;
 }
-void c20_register(void) { harness_register("c20.start", c20_child); harness_register("c20.vanish", vanish_child); }
+void c20_register(void) { harness_register("c20.start", c20_child); harness_register("c20.vanish", vanish_child); harness_register("c20.hub", hub_child); }
 int c20_run(const char *tier) {
 	int thorough = !strcmp(tier, "thorough");
 	stride = 1; (void) thorough;
@@ -162,6 +181,9 @@ int c20_run(const char *tier) {
 	ex_map(&e);
 	ex_spec_t v = { .harness = "c20.vanish", .ncases = 36, .gen = vanish_gen, .label = "c20.vanish" };
 	ex_map(&v); e.done += v.done; e.distinct_outcomes += v.distinct_outcomes; if (!v.exhaustive) e.exhaustive = 0;
+	ex_spec_t hb = { .harness = "c20.hub", .ncases = 96, .gen = hub_gen, .label = "c20.hub" };
+	ex_map(&hb); e.done += hb.done; e.distinct_outcomes += hb.distinct_outcomes; if (!hb.exhaustive) e.exhaustive = 0;
+	rep_note("c20.hub: %ld start-ups with configured boards beneath a hub the configuration does not mention", hb.done);
 	rep_note("c20.vanish: %ld cases (3 boards x GETNEXT #0..5 x {start-up, later reset}), table change applied in %ld", v.done, rep_get("table_changes_applied"));
 	rep_count("executions", e.done); rep_count("states", e.distinct_outcomes); rep_count("transitions", e.done * 2); rep_flag("exhaustive", e.exhaustive);
 	rep_note("configurations x trees executed=%ld (each: start-up transcript + transcript after a further bidib_send_sys_reset), distinct transcripts=%ld", e.done, e.distinct_outcomes);
